@@ -1,0 +1,42 @@
+//go:build verif
+
+package visitor
+
+import (
+	"sort"
+	"time"
+)
+
+// VerifSetCheckInterval replaces the period of keepVisitorsRunning.  Call before the first UpdateAll.
+func (vm *Manager) VerifSetCheckInterval(d time.Duration) { vm.checkInterval = d }
+
+// VerifConfigured returns the sorted names in Manager.cfgs.
+func (vm *Manager) VerifConfigured() []string {
+	vm.mu.RLock()
+	defer vm.mu.RUnlock()
+	res := make([]string, 0, len(vm.cfgs))
+	for k := range vm.cfgs {
+		res = append(res, k)
+	}
+	sort.Strings(res)
+	return res
+}
+
+// VerifVisitors returns the running visitor objects by name.
+func (vm *Manager) VerifVisitors() map[string]Visitor {
+	vm.mu.RLock()
+	defer vm.mu.RUnlock()
+	res := make(map[string]Visitor, len(vm.visitors))
+	for k, v := range vm.visitors {
+		res[k] = v
+	}
+	return res
+}
+
+// VerifKeepOnce runs the body of one keepVisitorsRunning ticker round.
+func (vm *Manager) VerifCfgOf(name string) (any, bool) {
+	vm.mu.RLock()
+	defer vm.mu.RUnlock()
+	c, ok := vm.cfgs[name]
+	return c, ok
+}
